@@ -110,6 +110,11 @@ ASMJIT_FAVOR_SIZE Error FuncArgsContext::init_work_data(const FuncFrame& frame, 
           return make_error(Error::kInvalidState);
         }
         _stack_dst_mask = uint8_t(_stack_dst_mask | Support::bit_mask<uint32_t>(signature.reg_group()));
+
+        // Stack to stack move always needs a scratch register of that group.
+        if (!src.is_reg()) {
+          reassignment_flag_mask |= 1u << uint32_t(signature.reg_group());
+        }
       }
 
       if (src.is_reg()) {
@@ -297,13 +302,14 @@ ASMJIT_FAVOR_SIZE Error FuncArgsContext::mark_scratch_regs(FuncFrame& frame) noe
     if (Support::bit_test(group_mask, group)) {
       WorkData& wd = _work_data[group];
       if (wd._needs_scratch) {
-        // Initially, pick some clobbered or dirty register.
+        // Initially, pick some clobbered or dirty register. Registers that hold arguments cannot be used as they
+        // are not available when the scratch register is needed.
         RegMask work_regs = wd.work_regs();
-        RegMask regs = work_regs & ~(wd.used_regs() | wd._dst_shuf);
+        RegMask regs = work_regs & ~(wd.used_regs() | wd._dst_shuf | wd.assigned_regs());
 
         // If that didn't work out pick some register which is not in 'used'.
         if (!regs) {
-          regs = work_regs & ~wd.used_regs();
+          regs = work_regs & ~(wd.used_regs() | wd.assigned_regs());
         }
 
         // If that didn't work out pick any other register that is allocable.
